@@ -1,6 +1,7 @@
 package main
 
 import (
+	"bytes"
 	"fmt"
 	"sort"
 	"strings"
@@ -282,7 +283,7 @@ func BiasedCuts(src []byte, r *Rng, want int) []int {
 
 // ---- faults on the file (what a non-atomic save leaves on disk) ----------------------------
 
-var faultKinds = []string{"F1-torn", "F2-nonl", "F3-badutf8", "F4-zerofill", "F5-halfoverwrite", "F6-flip"}
+var faultKinds = []string{"F1-torn", "F2-nonl", "F3-badutf8", "F4-zerofill", "F5-halfoverwrite", "F6-flip", "F7-crlf"}
 
 // ApplyFault returns the faulted content and the kind that actually fired ("" if none did).
 func ApplyFault(kind string, src, other []byte, r *Rng) ([]byte, string) {
@@ -348,6 +349,38 @@ func ApplyFault(kind string, src, other []byte, r *Rng) ([]byte, string) {
 		out := append([]byte(nil), src...)
 		k := r.Intn(n)
 		out[k] ^= 1 << uint(r.Intn(8))
+		return out, kind
+	case "F7-crlf":
+		// the file as an editor with other line-ending habits left it: every line break CRLF,
+		// only the lines up to some point (a save that was interrupted half-way through the
+		// conversion), lone CR breaks, or a stray CR in front of some breaks
+		if bytes.IndexByte(src, '\n') < 0 {
+			return src, ""
+		}
+		mode := r.Intn(4)
+		upto := n
+		if mode == 1 {
+			upto = r.Intn(n + 1)
+		}
+		var out []byte
+		for i, b := range src {
+			if b != '\n' || i >= upto {
+				out = append(out, b)
+				continue
+			}
+			switch mode {
+			case 0, 1:
+				out = append(out, '\r', '\n')
+			case 2:
+				out = append(out, '\r')
+			default:
+				if r.Chance(1, 3) {
+					out = append(out, '\r', '\r', '\n')
+				} else {
+					out = append(out, '\n')
+				}
+			}
+		}
 		return out, kind
 	}
 	return src, ""
@@ -451,7 +484,7 @@ func (g *Gen) lit() string {
 	case 1:
 		return fmt.Sprintf("%d.%d", g.r.Intn(10), g.r.Intn(100))
 	case 2:
-		return `"` + g.r.Pick([]string{"abc", "", "hello world", "a#{1}b", "x\\ny", "日本"}) + `"`
+		return `"` + g.r.Pick([]string{"abc", "", "hello world", "a#{1}b", "x\\ny", "日本", "two\nlines", "dos\r\nline", "mac\rline", "tab\there", "a:::b", "%x:::y", "@z"}) + `"`
 	case 3:
 		return "'" + g.r.Pick([]string{"q", "it''s", "w w"}) + "'"
 	case 4:
@@ -737,8 +770,33 @@ func (g *Gen) block(n int) {
 	g.ind--
 }
 
+// docText draws the text of a documentation comment: the editor modes print it inside their
+// records, so length (folding), multi-byte characters and characters that mean something in
+// a record all matter.
+func docText(r *Rng) string {
+	words := [][]string{
+		{"returns", "the", "value", "of", "this", "item", "when", "called", "twice", "in", "a", "row"},
+		{"日本語の", "説明文", "です", "この", "メソッドは", "値を", "返します", "長い", "文章", "テスト"},
+		{"renvoie", "l’élément", "précédent", "—", "déjà", "calculé", "où", "ça", "été", "naïve"},
+	}[r.Intn(3)]
+	n := []int{1, 3, 8, 20, 45, 90}[r.Intn(6)]
+	var ws []string
+	for i := 0; i < n; i++ {
+		ws = append(ws, r.Pick(words))
+		if r.Chance(1, 12) {
+			ws = append(ws, r.Pick([]string{":::", "%", "<CR>", "\\n", "\"q\"", "@x", "$", "\t", "#{1}", "*", "ti-doc:"}))
+		}
+	}
+	return strings.Join(ws, r.Pick([]string{" ", " ", " ", "  ", ""}))
+}
+
 func (g *Gen) def(inClass bool) {
 	name := g.r.Pick(genMethodNames)
+	if g.r.Chance(1, 5) {
+		for k := 0; k < 1+g.r.Intn(2); k++ {
+			g.line("# ti-doc: " + docText(g.r))
+		}
+	}
 	head := "def "
 	if inClass && g.r.Chance(1, 4) {
 		head += "self."
@@ -823,7 +881,11 @@ func Generate(r *Rng, builtins []BuiltinMethod, ties bool) []byte {
 			}
 			for _, m := range shared {
 				if r.Chance(1, 3) {
-					g.line("# ti-doc: " + m + " of " + cn)
+					if r.Chance(1, 3) {
+						g.line("# ti-doc: " + docText(r))
+					} else {
+						g.line("# ti-doc: " + m + " of " + cn)
+					}
 				}
 				g.line("def " + r.Pick([]string{"", "", "self."}) + m + g.params())
 				g.block(1)
